@@ -55,6 +55,11 @@ PatternFails(ev) ==
          \cup (IF ~ev.pruned /\ ev.massView /\ Resolvable(c, FALSE) /\ ev.unlabelled /\ FLeq(ev.requested, FInt(100))
                   /\ ~FWithin(SumMA(p), MTimesAFix(CompMass(c, FALSE), SumA(p)), FMulInt(Micro(3000 + ev.resolutionSlack), 1 + SumA(p)[1]))
                THEN {"weighted_mean_is_not_the_average_mass"} ELSE {})
+         (* ... and the average mass the library itself reports for the composition (chem_mass, average mode): the pattern *)
+         (* and the average-mass table are two readings of one isotope table                                               *)
+         \cup (IF ~ev.pruned /\ ev.massView /\ ev.hasLibAvg /\ ev.unlabelled /\ FLeq(ev.requested, FInt(100))
+                  /\ ~FWithin(SumMA(p), MTimesAFix(ev.libAvg, SumA(p)), FMulInt(Micro(3000 + ev.resolutionSlack), 1 + SumA(p)[1]))
+               THEN {"weighted_mean_is_not_the_average_mass_the_library_reports"} ELSE {})
 
 (* k = "bins": neutron-offset view vs mass view, both scaled to a total of 1                                    *)
 (* ev.mass = mass-view pattern, ev.offsets = <<[k, a]>> neutron view, ev.m0 = lightest mass of the mass view    *)
@@ -139,7 +144,10 @@ IsParticle(s) == s \in {"e", "p", "n"}
 RoundedComp(c) == Clean([ s \in DOMAIN c |-> IF IsParticle(s) THEN c[s] ELSE RoundE4(c[s]) * E4 ])
 Dev_C14_FractionalMean(ev) ==
     /\ ev.k = "pattern" /\ ev.out = "ret"
-    /\ PatternFails(ev) = {"weighted_mean_is_not_the_average_mass"}
+    /\ PatternFails(ev) # {}
+    /\ PatternFails(ev) \subseteq {"weighted_mean_is_not_the_average_mass", "weighted_mean_is_not_the_average_mass_the_library_reports"}
+    (* the same defect seen against the library's own average mass - only while that mass itself is the composition's *)
+    /\ (ev.hasLibAvg /\ Resolvable(Comp(ev.comp), FALSE) => FWithin(ev.libAvg, CompMass(Comp(ev.comp), FALSE), Micro(3000)))
     /\ LET c == Comp(ev.comp)  rc == RoundedComp(c)  p == ev.pattern IN
        /\ \E s \in DOMAIN c : ~IsParticle(s) /\ c[s] % E4 # 0
        /\ Resolvable(rc, FALSE) /\ Resolvable(rc, TRUE)
